@@ -43,6 +43,7 @@ type Solver struct {
 	Time      time.Duration
 	TimeoutMS int
 	LastErr   string
+	ValTime   time.Duration
 }
 
 func NewSolver(kind string, st *Store, timeoutMS int) (*Solver, error) {
@@ -354,6 +355,8 @@ func (s *Solver) Values(vars []*Term) (Model, error) {
 	if len(vars) == 0 {
 		return m, nil
 	}
+	t0 := time.Now()
+	defer func() { s.ValTime += time.Since(t0) }()
 	var sb strings.Builder
 	sb.WriteString("(get-value (")
 	for _, v := range vars {
